@@ -1,11 +1,21 @@
 ---------------------------- MODULE WsBuffer ----------------------------
 (* C18: hand-off of incoming WebSocket messages between the ASGI server, the framework's
-   background reader ("pump") and the application task.
+   background reader ("pump") and the application.
 
    One action = one await-to-await segment of one task (finer where noted: a finer grain only
-   admits MORE interleavings than an asyncio loop can produce).  The environment is the server
-   making client events available (SrvArrive), the application choosing its next call
-   (AppRecv / AppSend / AppClose) and the cancellation of a pending receive (CancelRecv).
+   admits MORE interleavings than an asyncio loop can produce).
+
+   The application is TWO tasks that share the connection: a reader task that calls receive_*()
+   (at most one receive at a time - receive() is documented as not re-entrant) and a writer task
+   that calls send_*() and close().  A single application task that does everything is the
+   special case in which the two never overlap.  So a receive may be pending on an empty buffer
+   at the moment the other task sends, closes (the pump is cancelled under its feet) or the
+   server's receive() fails (the pump ends without queueing anything); in all these cases the
+   pending receive must be released - with "disconnected", never left waiting.
+
+   The environment is the server making client events available (SrvArrive) or failing
+   (SrvFail), the application choosing its next calls (AppRecv / AppSend / AppClose) and the
+   cancellation of a pending receive (CancelRecv).
 
    Capacity mq = 0 is the unbuffered mode: there is no pump, a receive pulls from the server
    itself, and a sender never learns about a disconnect from the buffer.
@@ -15,8 +25,9 @@
    events plus one in the pump's hand.  "At most the configured number are held" is read as the
    queue bound (Bounded); the +1 is stated by Held and PullsStopWhenFull.
 
-   Scripts end at close(): what a receive/send on a socket the application closed itself must
-   do is the business of the connection state machine (C17), not of the buffer. *)
+   No call is STARTED after close() has returned: what a receive/send on a socket the application
+   closed itself must do is the business of the connection state machine (C17), not of the
+   buffer.  What send()/close() do after the server's receive() has failed is out of scope too. *)
 EXTENDS Integers, Sequences, FiniteSets, TLC
 
 CONSTANTS MaxQs,        \* capacities explored (0 = unbuffered)
@@ -25,6 +36,8 @@ CONSTANTS MaxQs,        \* capacities explored (0 = unbuffered)
           GeCmp,        \* TRUE: the pump waits while len(queue) >= capacity.  FALSE: wrong design ">"
           AwaitStop,    \* TRUE: close() waits for the cancelled pump.  FALSE: wrong design (fire and forget)
           NotifyPop,    \* TRUE: the pump resolves the receiver's waiter after appending.  FALSE: wrong design (lost wake-up)
+          ReleaseOnEnd, \* TRUE: a pending receive returns when the pump task has ended.  FALSE: wrong design (it waits on)
+          Faults,       \* TRUE: the server's receive() may raise while the pump awaits it
           MaxOps,       \* bound on application calls
           MaxCancel     \* bound on cancellations of a pending receive
 
@@ -33,66 +46,79 @@ VARIABLES mq,       \* capacity of this connection
           srv,      \* client events the server has not yet made available
           avail,    \* events available at the server, not yet pulled by the framework
           pull,     \* who has a server receive() outstanding: "none" | "pump" | "app"
-          ppc,      \* pump: "off" | "loop" | "awaitRecv" | "checkSpace" | "waitSpace" | "done" | "cancelled"
+          ppc,      \* pump: "off" | "loop" | "awaitRecv" | "checkSpace" | "waitSpace" | "done" | "cancelled" | "failed"
           pcancel,  \* close() has cancelled the pump, the pump has not yet seen it
           inhand,   \* event the pump has pulled and not yet queued, or NIL
           queue,    \* the message queue
           disc,     \* the pump has seen the disconnect (what a sender looks at)
           popW,     \* receiver's waiter: "none" | "pending" | "set"
           putW,     \* pump's waiter for space: "none" | "pending" | "set"
-          apc,      \* application: "idle" | "recvLoop" | "recvWait" | "recvRaw" | "sending" | "closeSending" | "closing" | "closed"
-          wstate,   \* what the application has been told: "accepted" | "closed"
+          rpc,      \* reader task: "idle" | "recvLoop" | "recvWait" | "recvRaw"
+          wpc,      \* writer task: "idle" | "sending" | "closeSending" | "closing" | "closed"
+          wstate,   \* the connection state the calls look at: "accepted" | "closed"
           taken,    \* ghost: events handed to the application by receive, in order
-          via,      \* ghost: how the application first learnt of the disconnect: "none" | "recv" | "send"
-          last,     \* ghost: the last completed call [op, r]
-          nops, ncancel,
+          via,      \* ghost: how the application first learnt of the client's disconnect: "none" | "recv" | "send"
+          rlast,    \* ghost: result of the last completed receive
+          wlast,    \* ghost: the last completed send/close [op, r]
+          rdone, wdone,   \* ghost: completed reader / writer calls
+          ncancel,
           pulls     \* ghost: server receive() calls issued so far
 
 vars == <<mq, all, srv, avail, pull, ppc, pcancel, inhand, queue, disc, popW, putW,
-          apc, wstate, taken, via, last, nops, ncancel, pulls>>
+          rpc, wpc, wstate, taken, via, rlast, wlast, rdone, wdone, ncancel, pulls>>
 
 DISC == 0          \* the disconnect event; messages are 1..NMsg
 NIL == -1
 OKR == -2          \* result of a send/close that went through
 CANCELLED == -3    \* result of a receive that was cancelled
-Live == {"loop", "awaitRecv", "checkSpace", "waitSpace"}
+Live  == {"loop", "awaitRecv", "checkSpace", "waitSpace"}
+Ended == {"done", "cancelled", "failed"}          \* the pump task has finished
+PumpEnded == ReleaseOnEnd /\ ppc \in Ended
 
 Events(n, d) == [i \in 1..(n + (IF d THEN 1 ELSE 0)) |-> IF i <= n THEN i ELSE DISC]
 Res(op, r) == [op |-> op, r |-> r]
 Hand == IF inhand = NIL THEN <<>> ELSE <<inhand>>
 Full == IF GeCmp THEN Len(queue) >= mq ELSE Len(queue) > mq
+Started == rdone + wdone + (IF rpc # "idle" THEN 1 ELSE 0) + (IF wpc \notin {"idle", "closed"} THEN 1 ELSE 0)
 
 InitWith(q, a) ==
         /\ mq = q /\ all = a
         /\ srv = all /\ avail = <<>> /\ pull = "none"
         /\ ppc = (IF mq > 0 THEN "loop" ELSE "off")
         /\ pcancel = FALSE /\ inhand = NIL /\ queue = <<>> /\ disc = FALSE
-        /\ popW = "none" /\ putW = "none" /\ apc = "idle" /\ wstate = "accepted"
-        /\ taken = <<>> /\ via = "none" /\ last = Res("none", NIL)
-        /\ nops = 0 /\ ncancel = 0 /\ pulls = 0
+        /\ popW = "none" /\ putW = "none" /\ rpc = "idle" /\ wpc = "idle" /\ wstate = "accepted"
+        /\ taken = <<>> /\ via = "none" /\ rlast = NIL /\ wlast = Res("none", NIL)
+        /\ rdone = 0 /\ wdone = 0 /\ ncancel = 0 /\ pulls = 0
 Init == \E q \in MaxQs, n \in 0..NMsg, d \in DiscChoices : InitWith(q, Events(n, d))
 
 (* ---------------- environment: the server ---------------- *)
 SrvArrive ==
     /\ srv # <<>>
     /\ avail' = Append(avail, Head(srv)) /\ srv' = Tail(srv)
-    /\ UNCHANGED <<mq, all, pull, ppc, pcancel, inhand, queue, disc, popW, putW, apc, wstate, taken, via, last,
-                   nops, ncancel, pulls>>
+    /\ UNCHANGED <<mq, all, pull, ppc, pcancel, inhand, queue, disc, popW, putW, rpc, wpc, wstate, taken, via,
+                   rlast, wlast, rdone, wdone, ncancel, pulls>>
+
+SrvFail ==         \* the receive() the pump awaits raises: the pump task ends without queueing anything
+    /\ Faults /\ ppc = "awaitRecv" /\ pull = "pump" /\ ~pcancel /\ wpc = "idle"
+    /\ ppc' = "failed" /\ pull' = "none"
+    /\ UNCHANGED <<mq, all, srv, avail, pcancel, inhand, queue, disc, popW, putW, rpc, wpc, wstate, taken, via,
+                   rlast, wlast, rdone, wdone, ncancel, pulls>>
 
 (* ---------------- the pump task ---------------- *)
 PumpLoop ==        \* while not client_disconnected: issue receive()
     /\ ppc = "loop" /\ ~pcancel
     /\ IF disc THEN ppc' = "done" /\ UNCHANGED <<pull, pulls>>
                ELSE ppc' = "awaitRecv" /\ pull' = "pump" /\ pulls' = pulls + 1
-    /\ UNCHANGED <<mq, all, srv, avail, pcancel, inhand, queue, disc, popW, putW, apc, wstate, taken, via, last,
-                   nops, ncancel>>
+    /\ UNCHANGED <<mq, all, srv, avail, pcancel, inhand, queue, disc, popW, putW, rpc, wpc, wstate, taken, via,
+                   rlast, wlast, rdone, wdone, ncancel>>
 
 PumpGot ==         \* receive() returned; the disconnect flag is raised at once, before waiting for space
     /\ ppc = "awaitRecv" /\ pull = "pump" /\ avail # <<>> /\ ~pcancel
     /\ avail' = Tail(avail) /\ pull' = "none"
     /\ disc' = (disc \/ Head(avail) = DISC)
     /\ inhand' = Head(avail) /\ ppc' = "checkSpace"
-    /\ UNCHANGED <<mq, all, srv, pcancel, queue, popW, putW, apc, wstate, taken, via, last, nops, ncancel, pulls>>
+    /\ UNCHANGED <<mq, all, srv, pcancel, queue, popW, putW, rpc, wpc, wstate, taken, via, rlast, wlast,
+                   rdone, wdone, ncancel, pulls>>
 
 PumpCheck ==       \* while full: wait for space; else append and notify the receiver
     /\ ppc = "checkSpace" /\ ~pcancel
@@ -101,156 +127,174 @@ PumpCheck ==       \* while full: wait for space; else append and notify the rec
                ELSE /\ queue' = Append(queue, inhand) /\ inhand' = NIL
                     /\ popW' = (IF popW = "pending" /\ NotifyPop THEN "set" ELSE popW)
                     /\ ppc' = "loop" /\ UNCHANGED putW
-    /\ UNCHANGED <<mq, all, srv, avail, pull, pcancel, disc, apc, wstate, taken, via, last, nops, ncancel, pulls>>
+    /\ UNCHANGED <<mq, all, srv, avail, pull, pcancel, disc, rpc, wpc, wstate, taken, via, rlast, wlast,
+                   rdone, wdone, ncancel, pulls>>
 
 PumpWake ==        \* the wait for space was resolved by a receive
     /\ ppc = "waitSpace" /\ putW = "set" /\ ~pcancel
     /\ putW' = "none" /\ ppc' = "checkSpace"
-    /\ UNCHANGED <<mq, all, srv, avail, pull, pcancel, inhand, queue, disc, popW, apc, wstate, taken, via, last,
-                   nops, ncancel, pulls>>
+    /\ UNCHANGED <<mq, all, srv, avail, pull, pcancel, inhand, queue, disc, popW, rpc, wpc, wstate, taken, via,
+                   rlast, wlast, rdone, wdone, ncancel, pulls>>
 
 PumpCancelled ==   \* CancelledError is raised at the await the pump is suspended in; what it held is dropped
     /\ pcancel /\ ppc \in Live
     /\ ppc' = "cancelled" /\ pcancel' = FALSE
     /\ pull' = (IF pull = "pump" THEN "none" ELSE pull)
     /\ putW' = "none" /\ inhand' = NIL
-    /\ UNCHANGED <<mq, all, srv, avail, queue, disc, popW, apc, wstate, taken, via, last, nops, ncancel, pulls>>
+    /\ UNCHANGED <<mq, all, srv, avail, queue, disc, popW, rpc, wpc, wstate, taken, via, rlast, wlast,
+                   rdone, wdone, ncancel, pulls>>
 
-(* ---------------- the application task ---------------- *)
+(* ---------------- the reader task ---------------- *)
 ToldDisc(how) == /\ wstate' = "closed" /\ via' = (IF via = "none" THEN how ELSE via)
+RDone(r) == rlast' = r /\ rdone' = rdone + 1
 
 AppRecv ==         \* receive_*(): a socket known to be closed raises at once
-    /\ apc = "idle" /\ nops < MaxOps /\ nops' = nops + 1
+    /\ rpc = "idle" /\ wpc # "closed" /\ Started < MaxOps
     /\ \/ /\ wstate = "closed"
-          /\ last' = Res("recv", DISC)
-          /\ UNCHANGED <<apc, pull, pulls>>
+          /\ RDone(DISC)
+          /\ UNCHANGED <<rpc, pull, pulls>>
        \/ /\ wstate = "accepted" /\ mq = 0
-          /\ apc' = "recvRaw" /\ pull' = "app" /\ pulls' = pulls + 1
-          /\ UNCHANGED last
+          /\ rpc' = "recvRaw" /\ pull' = "app" /\ pulls' = pulls + 1
+          /\ UNCHANGED <<rlast, rdone>>
        \/ /\ wstate = "accepted" /\ mq > 0
-          /\ apc' = "recvLoop"
-          /\ UNCHANGED <<last, pull, pulls>>
-    /\ UNCHANGED <<mq, all, srv, avail, ppc, pcancel, inhand, queue, disc, popW, putW, wstate, taken, via, ncancel>>
+          /\ rpc' = "recvLoop"
+          /\ UNCHANGED <<rlast, rdone, pull, pulls>>
+    /\ UNCHANGED <<mq, all, srv, avail, ppc, pcancel, inhand, queue, disc, popW, putW, wpc, wstate, taken, via,
+                   wlast, wdone, ncancel>>
 
 Deliver(e) ==      \* hand event e to the application
     /\ taken' = Append(taken, e)
-    /\ last' = Res("recv", e)
+    /\ RDone(e)
     /\ IF e = DISC THEN ToldDisc("recv") ELSE UNCHANGED <<wstate, via>>
 
-SynthDisc ==       \* the pump ended and left nothing: the receiver reports a disconnect itself
-    /\ last' = Res("recv", DISC) /\ ToldDisc("recv") /\ UNCHANGED taken
+SynthDisc ==       \* the pump task has ended and left nothing: the receiver reports "disconnected" itself
+                   \* (it is the client's disconnect only if the pump ended by itself after seeing it)
+    /\ RDone(DISC) /\ wstate' = "closed" /\ UNCHANGED taken
+    /\ via' = (IF via = "none" /\ ppc = "done" THEN "recv" ELSE via)
 
 RecvLoop ==        \* while not messages: create a waiter and wait; else pop and notify the pump
-    /\ apc = "recvLoop"
-    /\ \/ /\ queue = <<>> /\ ppc = "done"
-          /\ SynthDisc /\ apc' = "idle" /\ UNCHANGED <<queue, popW, putW>>
-       \/ /\ queue = <<>> /\ ppc # "done"
-          /\ popW' = "pending" /\ apc' = "recvWait"
-          /\ UNCHANGED <<queue, putW, taken, last, wstate, via>>
+    /\ rpc = "recvLoop"
+    /\ \/ /\ queue = <<>> /\ PumpEnded
+          /\ SynthDisc /\ rpc' = "idle" /\ UNCHANGED <<queue, popW, putW>>
+       \/ /\ queue = <<>> /\ ~PumpEnded
+          /\ popW' = "pending" /\ rpc' = "recvWait"
+          /\ UNCHANGED <<queue, putW, taken, rlast, rdone, wstate, via>>
        \/ /\ queue # <<>>
           /\ queue' = Tail(queue) /\ Deliver(Head(queue))
           /\ putW' = (IF putW = "pending" THEN "set" ELSE putW)
-          /\ apc' = "idle" /\ UNCHANGED popW
-    /\ UNCHANGED <<mq, all, srv, avail, pull, ppc, pcancel, inhand, disc, nops, ncancel, pulls>>
+          /\ rpc' = "idle" /\ UNCHANGED popW
+    /\ UNCHANGED <<mq, all, srv, avail, pull, ppc, pcancel, inhand, disc, wpc, wlast, wdone, ncancel, pulls>>
 
-RecvWake ==        \* the wait returned: the waiter was set, or the pump task is finished
-    /\ apc = "recvWait" /\ (popW = "set" \/ ppc = "done")
+RecvWake ==        \* the wait returned: the waiter was set, or the pump task has ended (cancelled by close()
+                   \* from the other task, failed, or finished)
+    /\ rpc = "recvWait" /\ (popW = "set" \/ PumpEnded)
     /\ popW' = "none"
-    /\ IF popW = "set" THEN apc' = "recvLoop" /\ UNCHANGED <<taken, last, wstate, via>>
-                       ELSE apc' = "idle" /\ SynthDisc
-    /\ UNCHANGED <<mq, all, srv, avail, pull, ppc, pcancel, inhand, queue, disc, putW, nops, ncancel, pulls>>
+    /\ IF popW = "set" THEN rpc' = "recvLoop" /\ UNCHANGED <<taken, rlast, rdone, wstate, via>>
+                       ELSE rpc' = "idle" /\ SynthDisc
+    /\ UNCHANGED <<mq, all, srv, avail, pull, ppc, pcancel, inhand, queue, disc, putW, wpc, wlast, wdone,
+                   ncancel, pulls>>
 
 RecvRawRet ==      \* unbuffered mode: the server's receive() returned to the application
-    /\ apc = "recvRaw" /\ pull = "app" /\ avail # <<>>
-    /\ avail' = Tail(avail) /\ pull' = "none" /\ Deliver(Head(avail)) /\ apc' = "idle"
-    /\ UNCHANGED <<mq, all, srv, ppc, pcancel, inhand, queue, disc, popW, putW, nops, ncancel, pulls>>
+    /\ rpc = "recvRaw" /\ pull = "app" /\ avail # <<>>
+    /\ avail' = Tail(avail) /\ pull' = "none" /\ Deliver(Head(avail)) /\ rpc' = "idle"
+    /\ UNCHANGED <<mq, all, srv, ppc, pcancel, inhand, queue, disc, popW, putW, wpc, wlast, wdone, ncancel, pulls>>
 
 CancelRecv ==      \* a pending receive is cancelled: its waiter is forgotten, nothing is consumed
-    /\ apc \in {"recvLoop", "recvWait", "recvRaw"} /\ ncancel < MaxCancel /\ ncancel' = ncancel + 1
+    /\ rpc \in {"recvLoop", "recvWait", "recvRaw"} /\ ncancel < MaxCancel /\ ncancel' = ncancel + 1
     /\ popW' = "none" /\ pull' = (IF pull = "app" THEN "none" ELSE pull)
-    /\ apc' = "idle" /\ last' = Res("recv", CANCELLED)
-    /\ UNCHANGED <<mq, all, srv, avail, ppc, pcancel, inhand, queue, disc, putW, wstate, taken, via, nops, pulls>>
+    /\ rpc' = "idle" /\ RDone(CANCELLED)
+    /\ UNCHANGED <<mq, all, srv, avail, ppc, pcancel, inhand, queue, disc, putW, wpc, wstate, taken, via,
+                   wlast, wdone, pulls>>
+
+(* ---------------- the writer task ---------------- *)
+WDone(op, r) == wlast' = Res(op, r) /\ wdone' = wdone + 1
 
 AppSend ==         \* send_*(): raises iff the socket is known closed or the pump has seen the disconnect
-    /\ apc = "idle" /\ nops < MaxOps /\ nops' = nops + 1
+    /\ wpc = "idle" /\ ppc # "failed" /\ Started < MaxOps
     /\ \/ /\ wstate = "closed"
-          /\ last' = Res("send", DISC) /\ UNCHANGED <<apc, wstate, via>>
+          /\ WDone("send", DISC) /\ UNCHANGED <<wpc, wstate, via>>
        \/ /\ wstate = "accepted" /\ disc
-          /\ last' = Res("send", DISC) /\ ToldDisc("send") /\ UNCHANGED apc
+          /\ WDone("send", DISC) /\ ToldDisc("send") /\ UNCHANGED wpc
        \/ /\ wstate = "accepted" /\ ~disc
-          /\ apc' = "sending" /\ UNCHANGED <<last, wstate, via>>
-    /\ UNCHANGED <<mq, all, srv, avail, pull, ppc, pcancel, inhand, queue, disc, popW, putW, taken, ncancel, pulls>>
+          /\ wpc' = "sending" /\ UNCHANGED <<wlast, wdone, wstate, via>>
+    /\ UNCHANGED <<mq, all, srv, avail, pull, ppc, pcancel, inhand, queue, disc, popW, putW, rpc, taken,
+                   rlast, rdone, ncancel, pulls>>
 
 SendRet ==         \* the server's send() returned
-    /\ apc = "sending" /\ apc' = "idle" /\ last' = Res("send", OKR)
-    /\ UNCHANGED <<mq, all, srv, avail, pull, ppc, pcancel, inhand, queue, disc, popW, putW, wstate, taken, via,
-                   nops, ncancel, pulls>>
+    /\ wpc = "sending" /\ wpc' = "idle" /\ WDone("send", OKR)
+    /\ UNCHANGED <<mq, all, srv, avail, pull, ppc, pcancel, inhand, queue, disc, popW, putW, rpc, wstate, taken, via,
+                   rlast, rdone, ncancel, pulls>>
 
 (* close(), as repaired: a socket that is closed already (the application was told, or the pump
    has seen the disconnect) only stops the pump; otherwise the close event goes to the server
    FIRST, the state becomes closed, and only then is the pump cancelled and awaited (cancelling
    it before a send that may fail would drop the event in the pump's hand).  So between the wire
    close and the return of close() the pump may still run and a pull may still be outstanding;
-   NothingLeftRunning speaks about the time after close() has returned. *)
+   NothingLeftRunning speaks about the time after close() has returned.  A receive of the other
+   task that is pending meanwhile is released by the end of the pump task (RecvWake). *)
 AppClose ==
-    /\ apc = "idle" /\ nops < MaxOps /\ nops' = nops + 1
+    /\ wpc = "idle" /\ ppc # "failed" /\ Started < MaxOps
     /\ IF wstate = "closed" \/ disc
-         THEN apc' = "closing" /\ pcancel' = (ppc \in Live)
-         ELSE apc' = "closeSending" /\ UNCHANGED pcancel
-    /\ UNCHANGED <<mq, all, srv, avail, pull, ppc, inhand, queue, disc, popW, putW, wstate, taken, via, last,
-                   ncancel, pulls>>
+         THEN wpc' = "closing" /\ pcancel' = (ppc \in Live)
+         ELSE wpc' = "closeSending" /\ UNCHANGED pcancel
+    /\ UNCHANGED <<mq, all, srv, avail, pull, ppc, inhand, queue, disc, popW, putW, rpc, wstate, taken, via,
+                   rlast, wlast, rdone, wdone, ncancel, pulls>>
 
 CloseSent ==       \* the server's send() of the close event returned: state closed, now cancel the pump
-    /\ apc = "closeSending"
-    /\ apc' = "closing" /\ wstate' = "closed" /\ pcancel' = (ppc \in Live)
-    /\ UNCHANGED <<mq, all, srv, avail, pull, ppc, inhand, queue, disc, popW, putW, taken, via, last,
-                   nops, ncancel, pulls>>
+    /\ wpc = "closeSending"
+    /\ wpc' = "closing" /\ wstate' = "closed" /\ pcancel' = (ppc \in Live)
+    /\ UNCHANGED <<mq, all, srv, avail, pull, ppc, inhand, queue, disc, popW, putW, rpc, taken, via,
+                   rlast, wlast, rdone, wdone, ncancel, pulls>>
 
 CloseFinish ==     \* ... wait until the pump is gone, then return
-    /\ apc = "closing" /\ (AwaitStop => ~pcancel)
-    /\ apc' = "closed" /\ wstate' = "closed" /\ last' = Res("close", OKR)
-    /\ UNCHANGED <<mq, all, srv, avail, pull, ppc, pcancel, inhand, queue, disc, popW, putW, taken, via,
-                   nops, ncancel, pulls>>
+    /\ wpc = "closing" /\ (AwaitStop => ~pcancel)
+    /\ wpc' = "closed" /\ wstate' = "closed" /\ WDone("close", OKR)
+    /\ UNCHANGED <<mq, all, srv, avail, pull, ppc, pcancel, inhand, queue, disc, popW, putW, rpc, taken, via,
+                   rlast, rdone, ncancel, pulls>>
 
-(* a step that completes an application call (its result is in last') *)
-Returned == apc' \in {"idle", "closed"} /\ (apc \notin {"idle", "closed"} \/ nops' # nops)
+(* a step that completes a call of the reader / writer task (result in rlast' / wlast') *)
+RReturned == rdone' # rdone
+WReturned == wdone' # wdone
 
 PumpStep == PumpLoop \/ PumpGot \/ PumpCheck \/ PumpWake \/ PumpCancelled
-AppStep  == RecvLoop \/ RecvWake \/ RecvRawRet \/ SendRet \/ CloseSent \/ CloseFinish
-Internal == PumpStep \/ AppStep
-External == SrvArrive \/ AppRecv \/ AppSend \/ AppClose \/ CancelRecv
+ReadStep == RecvLoop \/ RecvWake \/ RecvRawRet
+WriteStep == SendRet \/ CloseSent \/ CloseFinish
+Internal == PumpStep \/ ReadStep \/ WriteStep
+External == SrvArrive \/ SrvFail \/ AppRecv \/ AppSend \/ AppClose \/ CancelRecv
 Next == Internal \/ External
 
 Spec == Init /\ [][Next]_vars
-FairSpec == Spec /\ WF_vars(PumpStep) /\ WF_vars(AppStep) /\ WF_vars(SrvArrive)
+FairSpec == Spec /\ WF_vars(PumpStep) /\ WF_vars(ReadStep) /\ WF_vars(WriteStep) /\ WF_vars(SrvArrive)
 
 (* explicit enabledness of the internal steps (checked against ENABLED by QuietIsRight) *)
 PumpBusy == \/ ~pcancel /\ (ppc \in {"loop", "checkSpace"} \/ (ppc = "awaitRecv" /\ pull = "pump" /\ avail # <<>>)
                              \/ (ppc = "waitSpace" /\ putW = "set"))
             \/ pcancel /\ ppc \in Live
-AppBusy  == \/ apc \in {"recvLoop", "sending", "closeSending"}
-            \/ apc = "recvWait" /\ (popW = "set" \/ ppc = "done")
-            \/ apc = "recvRaw" /\ pull = "app" /\ avail # <<>>
-            \/ apc = "closing" /\ (AwaitStop => ~pcancel)
-Quiet == ~PumpBusy /\ ~AppBusy
+ReadBusy == \/ rpc = "recvLoop"
+            \/ rpc = "recvWait" /\ (popW = "set" \/ PumpEnded)
+            \/ rpc = "recvRaw" /\ pull = "app" /\ avail # <<>>
+WriteBusy == \/ wpc \in {"sending", "closeSending"}
+             \/ wpc = "closing" /\ (AwaitStop => ~pcancel)
+Quiet == ~PumpBusy /\ ~ReadBusy /\ ~WriteBusy
 
 (* ---------------- properties ---------------- *)
 TypeOK ==
     /\ mq \in MaxQs /\ pull \in {"none", "pump", "app"}
-    /\ ppc \in {"off", "loop", "awaitRecv", "checkSpace", "waitSpace", "done", "cancelled"}
+    /\ ppc \in {"off", "loop", "awaitRecv", "checkSpace", "waitSpace", "done", "cancelled", "failed"}
     /\ pcancel \in BOOLEAN /\ disc \in BOOLEAN
     /\ inhand \in {NIL} \cup 0..NMsg
     /\ popW \in {"none", "pending", "set"} /\ putW \in {"none", "pending", "set"}
-    /\ apc \in {"idle", "recvLoop", "recvWait", "recvRaw", "sending", "closeSending", "closing", "closed"}
+    /\ rpc \in {"idle", "recvLoop", "recvWait", "recvRaw"}
+    /\ wpc \in {"idle", "sending", "closeSending", "closing", "closed"}
     /\ wstate \in {"accepted", "closed"} /\ via \in {"none", "recv", "send"}
-    /\ nops \in 0..MaxOps /\ ncancel \in 0..MaxCancel
+    /\ Started \in 0..MaxOps /\ ncancel \in 0..MaxCancel
 
 IsPrefix(s, t) == Len(s) <= Len(t) /\ SubSeq(t, 1, Len(s)) = s
 
 (* the application receives exactly what the client sent: in order, each once, none skipped *)
 Fifo == IsPrefix(taken, all)
 (* ... and nothing is lost or duplicated on the way, as long as the application has not closed *)
-Conserved == apc \notin {"closing", "closed"} => taken \o queue \o Hand \o avail \o srv = all
+Conserved == wpc \notin {"closing", "closed"} => taken \o queue \o Hand \o avail \o srv = all
 (* at most the configured number are enqueued; one more may be in the pump's hand *)
 Bounded == Len(queue) <= mq
 Held == Len(queue) + Len(Hand) <= (IF mq > 0 THEN mq + 1 ELSE 0)
@@ -261,26 +305,31 @@ PullsStopWhenFull ==
     /\ pull = "pump" => inhand = NIL /\ Len(queue) <= mq
     /\ pulls <= Len(taken) + mq + 1 + (IF mq = 0 THEN ncancel ELSE 0)
 PumpStopsAfterDisc == disc => pull # "pump"
-(* a receiver is told of the disconnect only after everything that preceded it *)
+(* a receiver is told of the client's disconnect only after everything that preceded it *)
 DisconnectAfterPreceding == via = "recv" => taken = all
 (* a sender is told as soon as the pump has seen it: no send goes to the server after that *)
-SenderLearnsPromptly == [][(apc = "idle" /\ apc' = "sending") => ~disc]_vars
-NoLostWake == /\ ~(apc = "recvWait" /\ popW = "pending" /\ queue # <<>>)
+SenderLearnsPromptly == [][(wpc = "idle" /\ wpc' = "sending") => ~disc]_vars
+NoLostWake == /\ ~(rpc = "recvWait" /\ popW = "pending" /\ queue # <<>>)
               /\ ~(ppc = "waitSpace" /\ putW = "pending" /\ ~Full /\ ~pcancel)
-WaitersConsistent == /\ popW # "none" => apc = "recvWait"
+WaitersConsistent == /\ popW # "none" => rpc = "recvWait"
                      /\ putW # "none" => ppc = "waitSpace"
                      /\ inhand # NIL => ppc \in {"checkSpace", "waitSpace"}
-(* closing stops the background reader: nothing is left running, no receive() left outstanding *)
-NothingLeftRunning == apc = "closed" => ppc \in {"off", "done", "cancelled"} /\ pull = "none" /\ putW = "none" /\ ~pcancel
+(* closing stops the background reader: once close() has returned nothing of the framework is left
+   running and the pump has no receive() outstanding (in unbuffered mode a receive the application
+   itself has pending is the application's) *)
+NothingLeftRunning == wpc = "closed" => ppc \in ({"off"} \cup Ended) /\ pull # "pump" /\ putW = "none" /\ ~pcancel
 QuietIsRight == Quiet <=> ~ENABLED Internal
 
-(* liveness (FairSpec): a receive that can be satisfied is never left waiting *)
-Waiting == apc \in {"recvLoop", "recvWait", "recvRaw"}
-NothingLeft == srv = <<>> /\ avail = <<>> /\ queue = <<>> /\ inhand = NIL /\ ppc # "done"
+(* liveness (FairSpec): a receive that can be satisfied is never left waiting; in particular a
+   receive pending when the pump task ends (close() from the other task, server failure) is released *)
+Waiting == rpc \in {"recvLoop", "recvWait", "recvRaw"}
+NothingLeft == srv = <<>> /\ avail = <<>> /\ queue = <<>> /\ inhand = NIL /\ ppc \notin Ended
 RecvProgress == Waiting ~> (~Waiting \/ NothingLeft)
+PendingReleased == (mq > 0 /\ Waiting /\ ppc \in Ended) ~> ~Waiting
 (* the sender's view: once what precedes the disconnect fits, the flag is raised without any receive *)
 HasDisc == Len(all) > 0 /\ all[Len(all)] = DISC
 SenderLearnsEventually ==
-    [](((mq > 0 /\ HasDisc /\ Len(all) - 1 - Len(taken) <= mq) => <>(disc \/ apc \in {"closeSending", "closing", "closed"})))
-CloseCompletes == (apc \in {"closeSending", "closing"}) ~> (apc = "closed")
+    [](((mq > 0 /\ HasDisc /\ Len(all) - 1 - Len(taken) <= mq)
+            => <>(disc \/ wpc \in {"closeSending", "closing", "closed"} \/ ppc = "failed")))
+CloseCompletes == (wpc \in {"closeSending", "closing"}) ~> (wpc = "closed")
 =========================================================================
